@@ -76,15 +76,6 @@ def Just (p : Program) (s : St) (x : Key) : Prop :=
   ¬ Verified s x ∧
     (s.nodes x = none ∨ ∃ n d o, s.nodes x = some n ∧ (d, o) ∈ n.deps ∧ cur p s d ≠ some o)
 
-/-- the execution of `x` between `s` and `s'` is that of a projection re-executed by the backward
-    projection of a callee: the callee's backward projection was pending in `s`, or its stored value or
-    its firewall set changed between `s` and `s'` (finding F13: it need not differ from what the
-    projection observed) -/
-def Forced (s s' : St) (x : Key) : Prop :=
-  ¬ Verified s x ∧ ∃ n f o, s.nodes x = some n ∧ n.kind = .projection ∧ (f, o) ∈ n.deps ∧
-    (hasPending s f = true ∨ ∃ nf nf', s.nodes f = some nf ∧ s'.nodes f = some nf' ∧
-      (nf'.value ≠ nf.value ∨ nf'.tfc ≠ nf.tfc))
-
 /-- the recorded keys of a run that reads `ks` in order (first occurrences) -/
 def recordKeys (ks : List Key) (acc : List Key) : List Key :=
   ks.foldl (fun acc d => if acc.contains d then acc else acc ++ [d]) acc
@@ -146,7 +137,7 @@ structure Frame (p : Program) (s s' : St) : Prop where
     ∃ n, s.nodes x = some n ∧ (n.pendingBP = true ∨ n'.value ≠ n.value ∨ n'.tfc ≠ n.tfc)
   same_or_verified : ∀ x, s'.nodes x = s.nodes x ∨ Verified s' x
   log : ∃ new, s'.log = s.log ++ new ∧ new.Nodup ∧
-    (∀ x, x ∈ new → (Just p s x ∨ Forced s s' x) ∧ Verified s' x) ∧
+    (∀ x, x ∈ new → Just p s x ∧ Verified s' x) ∧
     ∀ x, s.nodes x = none → s'.nodes x ≠ none → x ∈ new
 
 /-- keys `≥ b` keep their node, and no pending backward projection is cleared (the requests of query
